@@ -48,20 +48,16 @@ EventOK(e, lcf) ==
 
 \* Tried in this order: a deviation that changes WHICH entries exist (list splitting, deleted
 \* exception) is the more fundamental explanation than the way a surviving entry is scored.
+\* ExceptionsSplitOnLinesOnly is fixed in the repository (insert_exceptions now splits on white
+\* space); it is no longer offered as an explanation, so if it returns it is a plain mismatch.
 DevOrder == << {},
-               {"ExceptionsSplitOnLinesOnly"}, {"LaterPatternReplacesException"}, {"ExceptionAsScore67"},
-               {"LaterPatternReplacesException", "ExceptionsSplitOnLinesOnly"},
-               {"ExceptionAsScore67", "ExceptionsSplitOnLinesOnly"},
-               {"ExceptionAsScore67", "LaterPatternReplacesException"},
-               {"ExceptionAsScore67", "LaterPatternReplacesException", "ExceptionsSplitOnLinesOnly"} >>
-DevKey == << "", "ExceptionsSplitOnLinesOnly", "LaterPatternReplacesException", "ExceptionAsScore67",
-             "LaterPatternReplacesException+ExceptionsSplitOnLinesOnly",
-             "ExceptionAsScore67+ExceptionsSplitOnLinesOnly",
-             "ExceptionAsScore67+LaterPatternReplacesException",
-             "ExceptionAsScore67+LaterPatternReplacesException+ExceptionsSplitOnLinesOnly" >>
+               {"LaterPatternReplacesException"}, {"ExceptionAsScore67"},
+               {"ExceptionAsScore67", "LaterPatternReplacesException"} >>
+DevKey == << "", "LaterPatternReplacesException", "ExceptionAsScore67",
+             "ExceptionAsScore67+LaterPatternReplacesException" >>
 Explain(e, lw, got) ==
   IF IsPlain(e) THEN "mismatch"
-  ELSE LET S == {i \in 2..8 : SetToSortSeq(Model(DevOrder[i], e.ops, lw), <) = got}
+  ELSE LET S == {i \in 2..Len(DevOrder) : SetToSortSeq(Model(DevOrder[i], e.ops, lw), <) = got}
        IN IF S = {} THEN "mismatch" ELSE DevKey[CHOOSE i \in S : \A j \in S : i <= j]
 
 \* one word: [w, sk, nt, ex, bad] = counted / skipped / non-trivial / exception hit / not accepted
